@@ -34,7 +34,7 @@ RUNS = {"quick": 500, "thorough": 15000}
 BUDGET = {"quick": 80, "thorough": 1500}
 CHUNK = {"quick": 4, "thorough": 20}
 RUN_TIMEOUT_S = 600
-KINDS = ["copy", "unwrap", "group", "rmid", "assign_empty", "assign_map", "mc", "compile", "compile_init", "metric", "trs", "evo", "hyb", "alt"]
+KINDS = ["copy", "unwrap", "group", "rmid", "assign_empty", "assign_map", "mc", "mc_empty", "compile", "compile_init", "metric", "trs", "evo", "hyb", "alt"]
 RULE = (
     "session = pool of 1-2 seeded circuits (random programs as in C01 on <=5 qubits, or a TimeReversedSolver circuit) "
     "and 1-2 targets (graph / stabilizer / density-matrix QuantumState), then 4-14 calls over {copy, unwrap_nodes, "
@@ -248,6 +248,17 @@ def noise_map(rng):
     if not any(m[k] for k in m):
         m["e"]["Hadamard"] = nm.PauliError("X")
         m["p"]["Hadamard"] = nm.PauliError("Z")
+    # placement: noise may act before or after its gate (noise_parameters["After gate"]); for two-qubit gates the two
+    # halves may be placed differently, which takes the compile loop through its noise-swapping branches
+    for k in m:
+        for name in list(m[k]):
+            if len(k) == 2 and rng.random() < 0.5:
+                a, b = rng.choice([nm.PauliError("X"), nm.DepolarizingNoise(0.1)]), rng.choice([nm.PauliError("Z"), nm.DepolarizingNoise(0.05)])
+                a.noise_parameters["After gate"] = rng.random() < 0.5
+                b.noise_parameters["After gate"] = rng.random() < 0.5
+                m[k][name] = [a, b]
+            elif rng.random() < 0.3:
+                m[k][name].noise_parameters["After gate"] = False
     return m
 
 
@@ -398,6 +409,22 @@ def run_case(case):
                     mc.one_run()
                     ctx.probe("mc_run")
                     C["noisy_derived"] = True
+                elif k == "mc_empty":
+                    from graphiq.noise.monte_carlo_noise import MonteCarloNoise, McNoiseMap
+
+                    comp = StabilizerCompiler()
+                    comp.measurement_determinism = 1
+                    mc = MonteCarloNoise(C["obj"], n_sample=1, mc_noise_model=McNoiseMap() if a[2] % 2 else None, compiler=comp, seed=a[3])
+                    c2 = mc.assign_noise()
+                    f2 = fp_circuit(c2)
+                    keys = [kk for kk in before[0][ci] if isinstance(kk, tuple) and kk[0] == "state"]
+                    if C["noisy"]:
+                        keys = [kk for kk in keys if kk[2] is False]
+                    d = diff_fp(before[0][ci], f2, keys)
+                    if d:
+                        ctx.violate("P_empty_noise_changes_state", step, f"MonteCarloNoise with an empty noise map: the derived circuit of #{ci} compiles differently for {[str(x) for x in d][:4]}", {"call": "mc_empty"})
+                        ok = False
+                    circuits.append({"obj": c2, "origin": f"mc_empty({ci})", "uses": [], "noisy_derived": False, "noisy": False})
                 elif k in ("compile", "compile_init"):
                     backend = ["stab", "dm"][a[2] % 2]
                     noise = bool(a[3] % 2)
